@@ -202,6 +202,10 @@ pub struct CancelStep {
     pub size: usize,
     pub polls: Option<u8>,
     pub peer_reads: usize,
+    /// after this step was abandoned the peer does not read what the send left in the kernel, so
+    /// the next step may find the socket still full and make no progress at all
+    #[serde(default)]
+    pub hold: bool,
 }
 
 fn run_ids(threads: usize, per_thread: usize) -> Result<(bool, usize), String> {
@@ -542,7 +546,7 @@ async fn cancel_history_core<S: Socket>(mut conn: Connection<S>, mut peer: StdUn
             }
         }
         completed.push(done);
-        if !done {
+        if !done && !st.hold {
             // the future is dropped here; what reached the kernel so far?
             received.extend(drain_nonblocking(&mut peer, usize::MAX));
             if received.len() < submitted && received.last().is_some_and(|&b| b != 0) {
@@ -1070,11 +1074,27 @@ fn scenarios(ctx: &Ctx) -> Vec<Scenario> {
                 };
                 let polls = if (q >> 40) % 3 == 0 { None } else { Some(1 + ((q >> 44) % 4) as u8) };
                 let peer_reads = [0usize, 0, 1, 4096, 70_000, 250_000][((q >> 48) % 6) as usize];
-                CancelStep { size, polls, peer_reads }
+                CancelStep { size, polls, peer_reads, hold: (q >> 52) % 2 == 0 }
             })
             .collect();
         steps.last_mut().unwrap().polls = None;
         v.push(Scenario::CancelHistory { rt, steps });
+    }
+    // directed: a send abandoned after a partial write, then one or two more abandoned while the
+    // socket is still full (no byte goes out), then a send that completes
+    for (i, rt) in [Rt::TokioCurrent, Rt::Smol].into_iter().enumerate() {
+        for (k, (first, second, again)) in [(400_000usize, 5usize, false), (700_000, 300_000, false), (300_000, 40, true), (1 << 20, 70_000, true)].into_iter().enumerate() {
+            let r = mix(ctx.seed ^ 0xD1EC, (i * 8 + k) as u64);
+            let mut steps = vec![
+                CancelStep { size: first + (r % 3000) as usize, polls: Some(1 + (r >> 8) as u8 % 3), peer_reads: 0, hold: true },
+                CancelStep { size: second + (r >> 16) as usize % 7, polls: Some(1 + (r >> 24) as u8 % 3), peer_reads: 0, hold: true },
+            ];
+            if again {
+                steps.push(CancelStep { size: 9 + (r >> 32) as usize % 500, polls: Some(1), peer_reads: 0, hold: k % 2 == 0 });
+            }
+            steps.push(CancelStep { size: 5 + (r >> 40) as usize % 100, polls: None, peer_reads: 0, hold: false });
+            v.push(Scenario::CancelHistory { rt, steps });
+        }
     }
     let n_rc = ctx.tier.pick(16u64, 300);
     for i in 0..n_rc {
